@@ -590,17 +590,21 @@ impl GameEnv {
     /// and the object of the transcript observation)
     pub fn honest_pay_proof_pub(&mut self, info: &ReadyInfo, amount: i64) -> (Vec<u8>, Tree, Vec<u8>) { self.honest_pay_proof(info, amount) }
     fn honest_pay_proof(&mut self, info: &ReadyInfo, amount: i64) -> (Vec<u8>, Tree, Vec<u8>) {
+        self.honest_pay_proof_opt(info, amount).expect("honest start")
+    }
+    /// None when the library refuses to start this (in-range) payment
+    pub fn honest_pay_proof_opt(&mut self, info: &ReadyInfo, amount: i64) -> Option<(Vec<u8>, Tree, Vec<u8>)> {
         let mut rng = self.rng(3);
         let c = &self.world.chans[&info.ch];
         let cfg = &self.world.ccfgs[c.mer];
         let copy = Cust::from_bytes("ready", &c.cust.to_bytes()).unwrap();
         let ready = match copy { Cust::Ready(r) => r, _ => unreachable!() };
         let amt: PaymentAmount = bincode::deserialize(&amount.to_le_bytes()).unwrap();
-        let (_started, msg) = ready.start(&mut rng, amt, &info.ctx, cfg).ok().expect("honest start");
+        let (_started, msg) = ready.start(&mut rng, amt, &info.ctx, cfg).ok()?;
         let nonce = bincode::serialize(&msg.nonce).unwrap();
         let tree = Tree::of(&msg.pay_proof);
         let _ = take_challenge_log();
-        (tree.bytes.clone(), tree, nonce)
+        Some((tree.bytes.clone(), tree, nonce))
     }
 
     /// Execute one pay strategy against merchant::Config::allow_payment.
